@@ -72,7 +72,7 @@ def build(cfg):
     elif et == "MIXED":
         mesh = simlib.mixed_mesh_interior()
     else:
-        mesh = simlib.gmsh_mesh(et, layers=1)
+        mesh = simlib.row_mesh(et, 2 if not et.startswith(("QUAD", "TRI")) else 3) if cfg.get("row") else simlib.gmsh_mesh(et, layers=1)
         if cfg.get("mirror"):
             # half model + its mirror image glued together with the library's own Symmetry / Merge: the mirrored elements keep their
             # connectivity, so one element group mixes both numbering orientations (det F > 0 and < 0)
@@ -114,7 +114,7 @@ def job(cfg):
     n = K.shape[0]
     dof_n, dim = info["dof_n"], info["dim"]
     coords = np.asarray(simu.mesh.coord, dtype=float)
-    key = f"{kind} {cfg['elem']}" + (f" dim={cfg.get('dim')} {'Timoshenko' if cfg.get('timoshenko') else 'EulerBernoulli'}" if kind == "beam" else f" {cfg.get('law', '')}") + (" half + mirrored half" if cfg.get("mirror") else "")
+    key = f"{kind} {cfg['elem']}" + (f" dim={cfg.get('dim')} {'Timoshenko' if cfg.get('timoshenko') else 'EulerBernoulli'}" if kind == "beam" else f" {cfg.get('law', '')}") + (" half + mirrored half" if cfg.get("mirror") else "") + (" single row of elements" if cfg.get("row") else "")
     res.functions |= {"_Simu.Get_K_C_M_F", "_Simu.Assembly", f"{kind.capitalize()}.Construct_local_matrix_system", "Bilinear.LinearizedElasticity", "Bilinear.GradUGradV",
                       "Bilinear.UV", "Bilinear.BeamStiffness", "Bilinear.BeamMass", "Gauss.Gauss_factory", "_GroupElem.Get_B_e_pg", "_GroupElem.Get_weightedJacobian_e_pg"}
     kmax = float(np.abs(K).max())
@@ -317,6 +317,12 @@ def main():
         configs.append({"sim": "elastic", "elem": et, "law": law, "mirror": True})
     for et in (["TRI6"] if tier == "quick" else ["TRI3", "TRI6", "QUAD9", "TETRA10"]):
         configs.append({"sim": "thermal", "elem": et, "mirror": True})
+    # a single row of regular elements: the mesh on which a reduced stiffness rule shows its hourglass modes
+    for et, law in ((("QUAD8", "iso_stress"), ("QUAD9", "iso_strain"), ("HEXA8", "iso"), ("HEXA20", "iso")) if tier == "quick" else
+                    (("QUAD4", "iso_stress"), ("QUAD8", "iso_stress"), ("QUAD9", "iso_strain"), ("HEXA8", "iso"), ("HEXA20", "iso"), ("HEXA27", "iso"), ("PRISM6", "iso"), ("PRISM15", "iso"), ("PRISM18", "iso"))):
+        configs.append({"sim": "elastic", "elem": et, "law": law, "row": True})
+    for et in (["QUAD9", "HEXA20"] if tier == "quick" else ["QUAD8", "QUAD9", "HEXA20", "HEXA27", "PRISM15"]):
+        configs.append({"sim": "thermal", "elem": et, "row": True})
     for et in segs:
         for dim in (1, 2, 3):
             for tim in (False, True):
